@@ -20,3 +20,5 @@ open Lungo.C02
 #print axioms Lungo.Expected.bulk_args_not_cloned
 #print axioms Lungo.Expected.collFootprint_ok
 #print axioms Lungo.Expected.collApply_fresh
+#print axioms failed_call_invisible
+#print axioms failed_call_views
